@@ -156,6 +156,8 @@ def run_with(case, decisions=None, rng=None, **kw):
     """execute a case, either from a recorded decision list or a PRNG"""
     ch = simmpi.Chooser(rng if rng is not None else random.Random(0),
                         replay=decisions)
+    if "stop_after" in case and "stop_after" not in kw:
+        kw["stop_after"] = case["stop_after"]
     res = distrun.run_case(case["recipe"], case["cfg"], ch,
                            iterations=case.get("iterations", 1),
                            real_codegen=case.get("real_codegen", False),
@@ -267,7 +269,7 @@ def replay_doc(prop, seed, stream, run, case, decisions, classes, details,
         "real_codegen": case.get("real_codegen", False),
         "faults": list(case.get("faults", ())),
         "transport_fault": case.get("transport_fault"),
-        "schedule": decisions,
+        "schedule": decisions, "stop_after": case.get("stop_after", "execute"),
         "verdict_classes": classes, "target_class": target_class,
         "details": details[:8],
     }
@@ -278,6 +280,7 @@ def case_from_doc(doc):
             "iterations": doc.get("iterations", 1),
             "real_codegen": doc.get("real_codegen", False),
             "faults": doc.get("faults", []),
+            "stop_after": doc.get("stop_after", "execute"),
             "transport_fault": doc.get("transport_fault")}
 
 
